@@ -328,6 +328,17 @@ func makeField(v reflect.Value, params fieldParameters) (encoder, error) {
 			tag.class = ClassUniversal
 			tag.constructed = false
 			tag.tagNumber = uint64(params.stringType)
+			if params.stringType == 0 {
+				// no string type parameter: use the one the Go type declares
+				switch fieldType {
+				case UTF8StringType:
+					tag.tagNumber = TagUTF8String
+				case IA5StringType:
+					tag.tagNumber = TagIA5String
+				case GraphicStringType:
+					tag.tagNumber = TagGraphicString
+				}
+			}
 
 			berType.value = stringEncoder(v.String())
 		}
